@@ -3,6 +3,7 @@ C06 — iter() is a double-ended exact-size fused iterator over all variants asc
 -/
 import EnumToolsModel.Lemmas.IterSim
 import EnumToolsModel.Thm.C05
+import EnumToolsModel.Generated.Inventory
 namespace ET.Thm
 
 /-- the enum's `next` / `next_back`, by position (from C05) -/
@@ -67,6 +68,18 @@ theorem C06_fused (op : Op) : (Cursor.step ([] : List Int) op).1 = [] ∧
 /-- exact size: the reported length is the number of remaining items, whatever happened before -/
 theorem C06_len (l : List Int) (ops : List Op) :
     (Cursor.step (Cursor.run l ops).1 .len).2 = .len (Cursor.run l ops).1.length := rfl
+
+/-- the forwarding modes (range, table, table_inline — and `names()`) are what the model says they are:
+over the regenerated inventory, every method of `extend_common` calls the same-named method of the inner
+std iterator with the same arguments in the same order (`len` of the range mode: `size_hint().0`), and all
+nine forwarders (plus both `len` variants) are present -/
+theorem C06_forwarders_wired :
+    (Generated.forwarders.all (fun f =>
+      (f.1 == f.2.1 && f.2.2.1 == f.2.2.2.1 && f.2.2.2.2 == "") ||
+      (f.1 == "len" && f.2.1 == "size_hint" && f.2.2.2.2 == ".0"))) = true ∧
+    (["next", "size_hint", "nth", "fold", "last", "next_back", "nth_back", "rfold", "len"].all
+      (fun n => Generated.forwarders.any (fun f => f.1 == n))) = true := by
+  decide +kernel
 
 /-- non-vacuity: a front/back interleaving that meets in the middle on the three-field state machine -/
 example : exD1.WF ∧
